@@ -6,10 +6,12 @@ From PNC Require Import Base.Util.
 From PNC Require Export Model.Handles Model.Alias.
 
 Inductive case_t :=
-  | HCase (groups : list (list prim))        (* per user step: the primitive events it expands to *)
+  | HCase (groups : list (list hev))         (* per user step: the events it expands to (primitive opens / closes, derivations) *)
           (refs : list (list nat))           (* per user step: the objects still referenced (observed) after it *)
           (obs : list (list (option nat)))   (* per user step: what reading each of them returned (file id / None = raised) *)
           (slots : list nat)                 (* per opened object, in order: its _grpid / 65536 *)
+          (uses : list (list (option nat)))  (* per user step: what USING every derived file so far returned (read every variable, len
+                                                of every dimension, save): the disk file whose data came back / None = raised *)
   | ACase (o : op)
           (obs_aliased : list nat)           (* input buffers that share memory with a variable of the returned file *)
           (obs_mutated : list nat)           (* input buffers (>= 1000: dimension / attribute / metadata tables) that differ after the call *)
@@ -19,14 +21,14 @@ Definition optnat_eqb := option_eqb Nat.eqb.
 Definition natlist_eqb := list_eqb Nat.eqb.
 
 (* ---- handles *)
-Fixpoint runF (st : state) (gs : list (list prim)) (refs : list (list nat)) (obs : list (list (option nat))) : bool * state :=
-  match gs, refs, obs with
-  | [], [], [] => (true, st)
-  | g :: gs', r :: refs', ob :: obs' =>
-      let st' := fold_left impl_step g st in
-      let (ok, stN) := runF st' gs' refs' obs' in
-      (list_eqb optnat_eqb (reads st' r) ob && ok, stN)
-  | _, _, _ => (false, st)
+Fixpoint runF (st : dstate) (gs : list (list hev)) (refs : list (list nat)) (obs uses : list (list (option nat))) : bool * dstate :=
+  match gs, refs, obs, uses with
+  | [], [], [], [] => (true, st)
+  | g :: gs', r :: refs', ob :: obs', u :: uses' =>
+      let st' := fold_left dstep g st in
+      let (ok, stN) := runF st' gs' refs' obs' uses' in
+      (list_eqb optnat_eqb (reads (fst st') r) ob && list_eqb optnat_eqb (snd st') u && ok, stN)
+  | _, _, _, _ => (false, st)
   end.
 
 Fixpoint opened_files (h : list prim) : list nat :=
@@ -37,15 +39,22 @@ Definition file_of (h : list prim) (o : nat) : option nat := nth_error (opened_f
 Definition prim_is_close (o : nat) (e : prim) : bool := match e with Close o' => Nat.eqb o o' | _ => false end.
 
 (* S after each user step: every referenced object that received no close so far reads its own file *)
-Fixpoint runS (past : list prim) (gs : list (list prim)) (refs : list (list nat)) (obs : list (list (option nat))) : bool :=
-  match gs, refs, obs with
-  | [], [], [] => true
-  | g :: gs', r :: refs', ob :: obs' =>
+Fixpoint derive_sources (h : list hev) : list nat :=
+  match h with [] => [] | Derive o :: t => o :: derive_sources t | P _ :: t => derive_sources t end.
+
+(* S after each user step: every referenced object that received no close so far reads its own file, and every derived file
+   (derived from an object that had received no close) still returns its source's data *)
+Fixpoint runS (past : list hev) (gs : list (list hev)) (refs : list (list nat)) (obs uses : list (list (option nat))) : bool :=
+  match gs, refs, obs, uses with
+  | [], [], [], [] => true
+  | g :: gs', r :: refs', ob :: obs', u :: uses' =>
       let past' := past ++ g in
-      forallb (fun p => existsb (prim_is_close (fst p)) past' || optnat_eqb (snd p) (file_of past' (fst p))) (combine r ob)
+      let pp := prims_of past' in
+      forallb (fun p => existsb (prim_is_close (fst p)) pp || optnat_eqb (snd p) (file_of pp (fst p))) (combine r ob)
       && Nat.eqb (length r) (length ob)
-      && runS past' gs' refs' obs'
-  | _, _, _ => false
+      && list_eqb optnat_eqb u (map (file_of pp) (derive_sources past'))
+      && runS past' gs' refs' obs' uses'
+  | _, _, _, _ => false
   end.
 
 (* ---- aliasing *)
@@ -58,9 +67,9 @@ Definition op_region (o : op) : nat := 0.   (* C05_isolation is full strength: n
 
 Definition checkF (c : case_t) : bool :=
   match c with
-  | HCase gs refs obs slots =>
-      let (ok, stN) := runF st0 gs refs obs in
-      ok && natlist_eqb (map o_ncid (objs stN)) slots
+  | HCase gs refs obs slots uses =>
+      let (ok, stN) := runF (st0, []) gs refs obs uses in
+      ok && natlist_eqb (map o_ncid (objs (fst stN))) slots
   | ACase o al mu later =>
       same_set (aliased (impl_effs o)) al && same_set (mutated (impl_effs o)) mu
       && same_set (aliased (impl_effs o)) later          (* a later write shows exactly in the shared buffers *)
@@ -68,13 +77,13 @@ Definition checkF (c : case_t) : bool :=
 
 Definition checkS (c : case_t) : bool :=
   match c with
-  | HCase gs refs obs _ => runS [] gs refs obs
+  | HCase gs refs obs _ uses => runS [] gs refs obs uses
   | ACase _ al mu later => match al, mu, later with [], [], [] => true | _, _, _ => false end
   end.
 
 Definition region (c : case_t) : nat :=
   match c with
-  | HCase _ _ _ _ => 0      (* C05_close_local is full strength: no known-defect region *)
+  | HCase _ _ _ _ _ => 0      (* C05_close_local is full strength: no known-defect region *)
   | ACase o _ _ _ => op_region o
   end.
 
